@@ -100,6 +100,23 @@ def run(ck):
                 exp = {'interface': names, 'tests': [''.join(x) for x in t], 'responses': [''.join(x) for x in r],
                        'tests_loc': [''.join(x) for x in l]}
                 fails.append((classify(d, info), desc, what, exp))
+        if not edge and i % 4 == 0 and d.builder != 'bench':
+            # the SAME StilFile object, already queried, applied to a second circuit of the same name whose ports and state elements
+            # are ordered differently: the arrays must follow THAT circuit's ordering
+            import copy
+            d2 = copy.deepcopy(d)
+            d2.node_order = list(reversed(d2.node_order))
+            d2.io_order = d2.io_order[1:] + d2.io_order[:1]
+            try:
+                c2 = sg.build_circuit(d2)
+                _, obs2 = sc.observe(text, c2, s=s)
+                what2, info2 = sc.array_oracle(obs2, d2, pats)
+            except Exception as e:
+                c2, what2 = None, f'raises {type(e).__name__}: {e}'
+            ck.count(1, 'second circuit on the same StilFile')
+            if what2:
+                fails.append(('second-circuit', dict(desc, second_circuit=cg.describe(c2) if c2 is not None else None),
+                              'the same StilFile applied to a second circuit of the same name with another port / state order: ' + what2, None))
         if i < 2:
             ck.sample({'chains': desc['chains'], 'patterns': len(pats), 'style': style,
                        'tests': [sc.mv_chars(x) for x in (obs.get('tests') or [])][:2]})
@@ -225,6 +242,12 @@ def replay(rp):
         return True
     if 'repeat' in obs['errors'] or 'patterns' in obs['errors']:
         return True
+    if inp.get('second_circuit'):
+        c2 = cg.from_description(inp['second_circuit'], name=c.name) if 'name' in cg.from_description.__code__.co_varnames else cg.from_description(inp['second_circuit'])
+        c2.name = c.name
+        _, used = sc.observe(inp['stil'], c2, s=s)
+        _, fresh = sc.observe(inp['stil'], c2)
+        return any(used.get(k_) != fresh.get(k_) for k_ in ('tests', 'resp', 'loc'))
     exp = rp.get('expected')
     if not exp:
         return False
